@@ -292,6 +292,25 @@ async def fifo_case(ctx, script: list) -> None:
                 got.append((await asyncio.wait_for(transport.read(), 5)).rstrip("\n"))
             except TransportFailedError as exc:
                 got.append(exc)
+        elif op in ("cancelled-read-then-msg", "msg-then-cancel-read"):
+            # a read is pending; a message arrives and the reading task is cancelled in the same loop iteration
+            # (a timeout deadline coinciding with a delivery): the message must still reach a later read
+            pending = asyncio.ensure_future(transport.read())
+            await asyncio.sleep(0)
+            uid += 1
+            if op == "msg-then-cancel-read":
+                transport._receive(f"in/1/0/1/0/{uid}", f"u{uid}")  # noqa: SLF001
+                pending.cancel()
+            else:
+                pending.cancel()
+                transport._receive(f"in/1/0/1/0/{uid}", f"u{uid}")  # noqa: SLF001
+            try:
+                got.append((await pending).rstrip("\n"))  # the read may also have completed: then it counts
+            except asyncio.CancelledError:
+                pass
+            except TransportFailedError as exc:
+                got.append(exc)
+            expected.append(f"1;0;1;0;{uid};u{uid}")
     while len(got) < len(expected):
         try:
             got.append((await asyncio.wait_for(transport.read(), 5)).rstrip("\n"))
@@ -339,7 +358,8 @@ def client_script_case(ctx, script: list, prefixes: tuple[str, str] = ("in", "ou
             if kind == "msg":
                 uid += 1
                 payload = op[1] if isinstance(op, tuple) and len(op) > 1 else f"u{uid}"
-                client.deliver(f"{prefixes[0]}/1/0/1/0/{uid}", payload.encode())
+                # broker-side attributes of a delivery that must not matter: QoS of the delivery, RETAIN bit
+                client.deliver(f"{prefixes[0]}/1/0/1/0/{uid}", payload.encode(), qos=uid % 2, retain=(uid % 3 == 0))
                 if not dead:
                     expected.append(("line", f"1;0;1;0;{uid};{payload}"))
             elif kind == "bin":
@@ -567,7 +587,8 @@ def run(ctx) -> None:
             arun(mapping_case(ctx, prefixes, rng.choice(VERSIONS), (*gens.random_wellformed(rng), gens.random_payload(rng))))
         # FIFO at hook level
         for length in range(1, ctx.pick(6, 8)):
-            for script in itertools.product(("msg", "err", "read"), repeat=length):
+            for script in itertools.product(("msg", "err", "read", "msg-then-cancel-read", "cancelled-read-then-msg")
+                                            if length <= 5 else ("msg", "err", "read"), repeat=length):
                 if ctx.mine():
                     arun(fifo_case(ctx, list(script)))
         for i, case in enumerate([{"kind": "backlog", "backlog": "burst", "n": 10}, {"kind": "backlog", "backlog": "burst", "n": 1500},
